@@ -55,7 +55,7 @@ def ptype(t):
         return ERRC
     if s0 in ("std::optional<unsigned long>", "std::optional<size_t>"):
         return OPT
-    if s0 in ("sockpuppet::DeadlineLimited", "DeadlineLimited"):
+    if obj_class(t):
         return OBJ
     if s0 in DROP_TYPES:
         return DROPT
@@ -86,17 +86,42 @@ WORLD = {
 WORLD_SPELLING = {"now": ("Clock::now", "std::chrono::steady_clock::now"), "send": ("::send",), "recv": ("::recv",)}
 
 # pure stage-1 leaves callable from stage-2 code: callee name -> (generated name, argument types, result)
-PURE = {"ToMsec": ("ToMsec", [MS], I32)}
+NS = Ty("dur", num=1, den=1000000000)
+PURE = {"ToMsec": ("ToMsec", [MS], I32), "MinDuration": ("MinDuration", [NS, MS], MS)}
 # methods of a DeadlineLimited object: pure ones are stage-1 leaves over its fields
 OBJ_FIELDS = ["now", "deadline"]
 OBJ_PURE = {"Remaining": ("DeadlineLimited_Remaining", MS), "TimeLeft": ("DeadlineLimited_TimeLeft", BOOL)}
+# the deadline flavours of wait.h: their fields and their pure methods (stage-1 leaves over the listed fields)
+OBJ_CLASSES = {
+    "DeadlineLimited": (["now", "deadline"], {"Remaining": ("DeadlineLimited_Remaining", MS, ["now", "deadline"]),
+                                              "TimeLeft": ("DeadlineLimited_TimeLeft", BOOL, ["now", "deadline"])}),
+    "DeadlineUnlimitedTime": (["now"], {"Remaining": ("Unlimited_Remaining", MS, []), "TimeLeft": ("Unlimited_TimeLeft", BOOL, [])}),
+    "DeadlineZeroTime": (["now"], {"Remaining": ("ZeroLimited_Remaining", MS, []), "TimeLeft": ("ZeroLimited_TimeLeft", BOOL, [])}),
+}
+
+
+def obj_class(t):
+    s0 = ((t or {}).get("desugaredQualType") or (t or {}).get("qualType") or "").strip()
+    s0 = re.sub(r"^const\s+", "", re.sub(r"\s*(&&|&)$", "", s0)).strip()
+    s0 = s0.split("::")[-1]
+    return s0 if s0 in OBJ_CLASSES else None
+
+# the abstract deque / task interface of StepTodos (functions with `world="TodoWorld"` only): canonical text of the
+# C++ expression -> (field of TodoWorld, result type, local that must be the reference to the front / the moved task)
+TODO_WORLD = {
+    "front->when": ("frontWhen", TPNS, "front"),
+    "todos.pop_front()": ("popFront", VOID, None),
+    "todos.empty()": ("todosEmpty", BOOL, None),
+    "operator()(task->what)": ("runTask", VOID, "task"),
+}
 
 EXN_CLASSES = {"std::system_error": "system_error", "std::runtime_error": "runtime_error", "std::logic_error": "logic_error"}
 
 
 class Spec:
-    def __init__(self, name, src, flt, cname, params, ret, nparams=None, needs=()):
+    def __init__(self, name, src, flt, cname, params, ret, nparams=None, needs=(), world="World", objcls=None, targ=None):
         self.name, self.src, self.flt, self.cname = name, src, flt, cname
+        self.world, self.objcls, self.targ = world, objcls, targ      # targ: template argument of the instantiation
         self.params = params          # [(c name, kind)]: "drop" | "ptr" | "obj" | Ty
         self.ret = ret
         self.nparams = nparams if nparams is not None else len(params)
@@ -122,18 +147,40 @@ def EFF_SPECS():
         Spec("SendTry", "socket_impl.cpp", "SendTry", "SendTry", [("fd", D), ("data", "ptr"), ("size", U64)], U64),
         Spec("SendSome", "socket_impl.cpp", "sockpuppet::SendSome", "SendSome",
              [("fd", D), ("data", "ptr"), ("size", U64), ("deadline", "obj")], U64,
-             needs=("DeadlineLimited_Remaining", "DeadlineLimited_TimeLeft")),
+             needs=("DeadlineLimited_Remaining", "DeadlineLimited_TimeLeft"), objcls="DeadlineLimited"),
+        # Driver::DriverImpl::StepTodos<Deadline>, one definition per instantiation, over the abstract deque / task
+        # interface `TodoWorld`
+        Spec("StepTodos_Unlimited", "driver_impl.cpp", "DriverImpl::Step", "StepTodos", [("deadline", "obj")], MS,
+             needs=("MinDuration", "Unlimited_Remaining", "Unlimited_TimeLeft"), world="TodoWorld",
+             objcls="DeadlineUnlimitedTime", targ="DeadlineUnlimitedTime"),
+        Spec("StepTodos_Zero", "driver_impl.cpp", "DriverImpl::Step", "StepTodos", [("deadline", "obj")], MS,
+             needs=("MinDuration", "ZeroLimited_Remaining", "ZeroLimited_TimeLeft"), world="TodoWorld",
+             objcls="DeadlineZeroTime", targ="DeadlineZeroTime"),
+        Spec("StepTodos_Limited", "driver_impl.cpp", "DriverImpl::Step", "StepTodos", [("deadline", "obj")], MS,
+             needs=("MinDuration", "DeadlineLimited_Remaining", "DeadlineLimited_TimeLeft"), world="TodoWorld",
+             objcls="DeadlineLimited", targ="DeadlineLimited"),
     ]
 
 
 class SvVal:
-    def __init__(self, off, ln):
-        self.off, self.len, self.ty = off, ln, SV
+    """`std::string_view(p, n)`: the cursor `off` (a Lean name, the only part that changes) and the text of the
+    immutable end `p + n`; the length is derived (`end - off`), so that a shrinking view and a byte counter
+    have the same canonical loop state: one offset"""
+    def __init__(self, off, end):
+        self.off, self.end, self.ty = off, end, SV
+
+    @property
+    def len(self):
+        return "(%s - %s)" % (self.end, self.off)
 
 
 class ObjVal:
-    def __init__(self, fields):
-        self.fields, self.ty = dict(fields), OBJ
+    def __init__(self, fields, cls="DeadlineLimited"):
+        self.fields, self.ty, self.cls = dict(fields), OBJ, cls
+
+    @property
+    def order(self):
+        return OBJ_CLASSES[self.cls][0]
 
 
 class EFn(C.Fn):
@@ -142,7 +189,7 @@ class EFn(C.Fn):
     def __init__(self, repo, spec, specs, available):
         C.Fn.__init__(self, repo, [], {})
         self.spec_e = spec
-        self.specs = {(s.cname, s.nparams): s for s in specs}
+        self.specs = {(s.cname, s.nparams): s for s in specs if s.targ is None}
         self.available = available        # names that really exist in the generated file so far
         self.tmp = 0
         self.names = set()
@@ -151,6 +198,7 @@ class EFn(C.Fn):
         self.params_lean = []             # [(lean name, lean type)] of the function itself
         self.depends = set()
         self.cur_pad = "  "
+        self.wbase = "W" if spec.world == "World" else "W.toWorld"
 
     # ---- names ---------------------------------------------------------
     def fresh(self, base):
@@ -188,8 +236,28 @@ class EFn(C.Fn):
             return ("pure",) + PURE[name]
         return None
 
+    def todo_call(self, n):
+        """(field, type) when n is one of the abstract deque / task operations of a TodoWorld function"""
+        if self.spec_e.world != "TodoWorld" or n.get("kind") not in ("MemberExpr", "CXXMemberCallExpr", "CXXOperatorCallExpr"):
+            return None
+        try:
+            t = TODO_WORLD.get(C.canon(n))
+        except Exception:
+            return None
+        if not t:
+            return None
+        field, ty, ref = t
+        if ref is not None:
+            ids = [x.get("referencedDecl", {}).get("id") for x in walk(n)
+                   if x.get("kind") == "DeclRefExpr" and x.get("referencedDecl", {}).get("kind") == "VarDecl"]
+            if not ids or self.env.get(ids[-1]) != ref + "ref" and not any(self.env.get(i) == ref + "ref" for i in ids):
+                return None
+        return field, ty
+
     def is_eff(self, n):
         for x in walk(n):
+            if self.todo_call(x):
+                return True
             k = x.get("kind")
             if k == "CXXThrowExpr":
                 return True
@@ -209,7 +277,7 @@ class EFn(C.Fn):
             fail("reference to %s `%s` is outside the subset" % (rd.get("kind"), rd.get("name")))
         if b == "uninit":
             fail("`%s` is read before it is assigned" % rd.get("name"))
-        if b == "drop":
+        if b in ("drop", "frontref", "taskref"):
             fail("`%s` (a handle that is not modelled) is used as a value" % rd.get("name"))
         return b
 
@@ -220,6 +288,14 @@ class EFn(C.Fn):
             if isinstance(b, (SvVal, ObjVal)):
                 fail("`%s` used as a plain value" % n.get("referencedDecl", {}).get("name"))
             return b
+        if k == "MemberExpr" and kids(n):
+            b0 = C._strip(kids(n)[0])
+            while b0["kind"] == "ImplicitCastExpr":
+                b0 = C._strip(kids(b0)[0])
+            if b0["kind"] == "DeclRefExpr":
+                ob = self.env.get(b0.get("referencedDecl", {}).get("id"))
+                if isinstance(ob, ObjVal) and n.get("name") in ob.fields:
+                    return Val(ob.fields[n["name"]], TPNS)
         if k == "CStyleCastExpr" and n.get("castKind") == "ToVoid":
             return Val("()", VOID)
         if k == "ImplicitCastExpr" and n.get("castKind") in ("LValueToRValue", "NoOp", "BitCast") and \
@@ -249,10 +325,10 @@ class EFn(C.Fn):
                     if meth == "empty":
                         return Val("(%s = 0)" % b.len, BOOL, True)
                     fail("string_view::%s is outside the subset" % meth)
-                if isinstance(b, ObjVal) and meth in OBJ_PURE and len(kids(n)) == 1:
-                    gen, rty = OBJ_PURE[meth]
+                if isinstance(b, ObjVal) and meth in OBJ_CLASSES[b.cls][1] and len(kids(n)) == 1:
+                    gen, rty, flds = OBJ_CLASSES[b.cls][1][meth]
                     self.use(gen)
-                    return Val("(%s %s)" % (gen, " ".join(b.fields[f] for f in OBJ_FIELDS)), rty)
+                    return Val("(%s)" % " ".join([gen] + [b.fields[f] for f in flds]) if flds else gen, rty)
         if k == "CallExpr":
             t = self.call_target(n)
             if t and t[0] == "pure":
@@ -290,6 +366,27 @@ class EFn(C.Fn):
             return k(self.expr(n))
         kind = n["kind"]
         ks = kids(n)
+        tc = self.todo_call(n)
+        if tc:
+            r = self.fresh("r")
+            res = Val("()", VOID) if tc[1] == VOID else Val(r, tc[1])
+            return "%sM.bind (W.%s) fun %s =>\n%s" % (self.cur_pad, tc[0], "_" if tc[1] == VOID else r, k(res))
+        if kind == "CXXOperatorCallExpr" and len(ks) == 3:
+            # chrono operator with one effectful operand: bind it, rebuild the operator on pure values
+            a1, a2 = ks[1], ks[2]
+            if self.is_eff(a1) and self.is_eff(a2):
+                fail("two effectful operands of an overloaded operator: the order of evaluation is unspecified")
+            idx = 1 if self.is_eff(a1) else 2
+
+            def with_val2(v):
+                holder = self.fresh("v")
+                n2 = copy.copy(n)
+                n2["inner"] = list(ks)
+                n2["inner"][idx] = {"kind": "DeclRefExpr", "referencedDecl": {"id": "tmp:" + holder, "kind": "VarDecl", "name": holder},
+                                    "type": ks[idx].get("type")}
+                self.env["tmp:" + holder] = v
+                return k(self.expr(n2))
+            return self.ex(ks[idx], with_val2)
         if kind in C.STRIP or kind == "InitListExpr" and len(ks) == 1:
             return self.ex(ks[0], k)
         if kind in ("ImplicitCastExpr", "CXXStaticCastExpr", "CXXFunctionalCastExpr", "CStyleCastExpr"):
@@ -363,7 +460,7 @@ class EFn(C.Fn):
                 self.use(spec.name)
                 kinds = [kd for _, kd in spec.params]
                 rty = spec.ret
-                head = "%s W fuel" % spec.name
+                head = "%s %s fuel" % (spec.name, self.wbase if spec.world == "World" else "W")
             n_eff = sum(1 for a, kd in zip(args, kinds) if kd != "drop" and self.is_eff(a))
             if n_eff > 1:
                 fail("more than one effectful argument: the order of evaluation is unspecified")
@@ -383,7 +480,7 @@ class EFn(C.Fn):
                     b = self.env.get(a.get("referencedDecl", {}).get("id")) if a["kind"] == "DeclRefExpr" else None
                     if not isinstance(b, ObjVal):
                         fail("object argument is not a local object")
-                    vals.extend(b.fields[f] for f in OBJ_FIELDS)
+                    vals.extend(b.fields[f] for f in b.order)
                     return go(i + 1)
                 want = PTR if kd == "ptr" else kd
 
@@ -490,18 +587,18 @@ class EFn(C.Fn):
                 def upd(v):
                     if v.ty.kind != "int":
                         fail("remove_prefix argument")
-                    o, l = self.fresh(b.off), self.fresh(b.len)
-                    self.env[did] = SvVal(o, l)
-                    # TRUSTED: remove_prefix(k), k <= size(): the view starts k bytes later and is k bytes shorter
-                    return "%slet %s : Int := %s + %s\n%slet %s : Int := %s - %s\n%s" % (pad, o, b.off, v.s, pad, l, b.len, v.s, nxt())
+                    o = self.fresh(b.off)
+                    self.env[did] = SvVal(o, b.end)
+                    # TRUSTED: remove_prefix(k), k <= size(): the view starts k bytes later and ends where it ended
+                    return "%slet %s : Int := %s + %s\n%s" % (pad, o, b.off, v.s, nxt())
                 return self.ex(kids(e)[1], upd)
             if isinstance(b, ObjVal) and me.get("name") == "Tick" and len(kids(e)) == 1:
                 self.use("Clocked_Tick")
                 nn = self.fresh(b.fields["now"])
-                nb = ObjVal(b.fields)
+                nb = ObjVal(b.fields, b.cls)
                 nb.fields["now"] = nn
                 self.env[did] = nb
-                return "%sM.bind (Clocked_Tick W) fun %s =>\n%s" % (pad, nn, nxt())
+                return "%sM.bind (Clocked_Tick %s) fun %s =>\n%s" % (pad, self.wbase, nn, nxt())
         if self.is_eff(e) or e["kind"] == "CStyleCastExpr":
             return self.ex(e, lambda v: nxt())
         fail("statement kind %s is outside the subset" % k)
@@ -522,6 +619,17 @@ class EFn(C.Fn):
         t = ptype(d.get("type"))
         inits = kids(d)
         did = d["id"]
+        if self.spec_e.world == "TodoWorld" and inits:
+            txt = C.canon(inits[-1])
+            if txt == "todos.front()" and "&" in ((d.get("type") or {}).get("qualType") or ""):
+                self.env[did] = "frontref"          # a reference to the first element: nothing happens yet
+                return nxt()
+            if txt.startswith("move(") and txt.endswith(")"):
+                src = [x.get("referencedDecl", {}).get("id") for x in walk(inits[-1]) if x.get("kind") == "DeclRefExpr"
+                       and x.get("referencedDecl", {}).get("kind") == "VarDecl"]
+                if len(src) == 1 and self.env.get(src[0]) == "frontref":
+                    self.env[did] = "taskref"        # the shared_ptr moved out of the front slot
+                    return nxt()
         if t == DROPT:
             if inits and self.is_eff(inits[-1]):
                 fail("effectful initialiser of a dropped local")
@@ -548,8 +656,8 @@ class EFn(C.Fn):
                     fail("DeadlineLimited(timeout): timeout of type %r" % v.ty)
                 nn, dd = self.fresh(d.get("name") + "_now"), self.fresh(d.get("name") + "_deadline")
                 self.env[did] = ObjVal({"now": nn, "deadline": dd})
-                return "%sM.bind (Clocked_ctor_now W) fun %s =>\n%slet %s : Int := DeadlineLimited_deadline %s %s\n%s" % (
-                    pad, nn, pad, dd, nn, v.s, nxt())
+                return "%sM.bind (Clocked_ctor_now %s) fun %s =>\n%slet %s : Int := DeadlineLimited_deadline %s %s\n%s" % (
+                    pad, self.wbase, nn, pad, dd, nn, v.s, nxt())
             return self.ex(kids(e)[0], built)
         if t == SV:
             e = C._strip(init)
@@ -564,9 +672,9 @@ class EFn(C.Fn):
             p, ln = self.expr(kids(e)[0]), self.expr(kids(e)[1])
             if p.ty != PTR or ln.ty.kind != "int":
                 fail("string_view(%r, %r)" % (p.ty, ln.ty))
-            o, l = self.fresh(d.get("name") + "_off"), self.fresh(d.get("name") + "_len")
-            self.env[did] = SvVal(o, l)
-            return "%slet %s : Int := %s\n%slet %s : Int := %s\n%s" % (pad, o, p.s, pad, l, ln.s, nxt())
+            o = self.fresh(d.get("name") + "_off")
+            self.env[did] = SvVal(o, "(%s + %s)" % (p.s, ln.s))
+            return "%slet %s : Int := %s\n%s" % (pad, o, p.s, nxt())
 
         def bound(v):
             if t is not None and t != v.ty:
@@ -649,9 +757,9 @@ class EFn(C.Fn):
     def comps(self, b):
         """lean variable names a binding consists of"""
         if isinstance(b, SvVal):
-            return [b.off, b.len]
+            return [b.off]
         if isinstance(b, ObjVal):
-            return [b.fields[f] for f in OBJ_FIELDS]
+            return [b.fields[f] for f in b.order]
         if isinstance(b, Val):
             return [b.s]
         return []
@@ -683,10 +791,10 @@ class EFn(C.Fn):
         for i in margs:
             b = outer_env[i]
             if isinstance(b, SvVal):
-                nb = SvVal(self.fresh(b.off), self.fresh(b.len))
+                nb = SvVal(self.fresh(b.off), b.end)
             elif isinstance(b, ObjVal):
                 # only `now` can change (Tick); `deadline` stays what it is
-                nb = ObjVal(b.fields)
+                nb = ObjVal(b.fields, b.cls)
                 nb.fields["now"] = self.fresh(b.fields["now"])
             else:
                 nb = Val(self.fresh(b.s), b.ty)
@@ -744,22 +852,27 @@ class EFn(C.Fn):
                 self.env = saved
                 return "    if %s then\n%s\n    else\n%s" % (as_prop(c), th, el)
             text = self.ex(cond, whole)
-        # fixed arguments: everything visible at the loop head that the text mentions and the loop does not change
+        # fixed arguments, canonical: ALL parameters of the function and ALL locals visible at the loop head that the
+        # loop does not change, in declaration order, whether the loop mentions them or not (so that restructuring
+        # the loop does not change its signature)
         fixed = []
         formals = set(formal_args())
         for nm, _ty in self.params_lean:
-            if nm not in formals and re.search(r"(?<![A-Za-z0-9_.])%s(?![A-Za-z0-9_])" % re.escape(nm), text):
+            if nm not in formals:
                 fixed.append((nm, _ty))
         for i, b in outer_env.items():
-            for nm in self.comps(b) if not isinstance(b, str) else []:
+            if isinstance(b, str) or str(i).startswith("tmp:"):
+                continue
+            for nm in self.comps(b):
                 if nm in formals or any(nm == f for f, _ in fixed):
                     continue
                 if i in margs and not isinstance(b, ObjVal):
                     continue
                 if isinstance(b, ObjVal) and i in margs and nm == b.fields["now"]:
                     continue
-                if re.search(r"(?<![A-Za-z0-9_.])%s(?![A-Za-z0-9_])" % re.escape(nm), text):
-                    fixed.append((nm, "Bool" if isinstance(b, Val) and b.ty == BOOL else "Int"))
+                if not re.match(r"^[A-Za-z_][A-Za-z0-9_]*$", nm):
+                    continue
+                fixed.append((nm, "Bool" if isinstance(b, Val) and b.ty == BOOL else "Int"))
         fixed_call = " ".join(nm for nm, _ in fixed)
         text = text.replace(FIXED + " ", (fixed_call + " ") if fixed_call else "").replace(FIXED, fixed_call)
         fa = formal_args()
@@ -767,9 +880,9 @@ class EFn(C.Fn):
         arrow = " → ".join(["Nat"] + ["Int"] * len(fa) + ["M ω %s" % lean_ty(self.spec_e.ret)])
         zero = "  | " + ", ".join(["0"] + ["_"] * len(fa)) + " => M.halt"
         succ = "  | " + ", ".join(["n + 1"] + fa) + " =>"
-        self.loops.append("/-- loop %d of `%s` (%s); fuel `n` = remaining iterations -/\ndef %s {ω : Type} (W : World ω) (fuel : Nat)%s : %s\n%s\n%s\n%s\n" % (
+        self.loops.append("/-- loop %d of `%s` (%s); fuel `n` = remaining iterations -/\ndef %s {ω : Type} (W : %s ω) (fuel : Nat)%s : %s\n%s\n%s\n%s\n" % (
             self.nloops, self.spec_e.cname, {"DoStmt": "do-while", "ForStmt": "for(;;)", "WhileStmt": "while"}[k],
-            lname, sig, arrow, zero, succ, text))
+            lname, self.spec_e.world, sig, arrow, zero, succ, text))
         # the call at the loop statement
         self.env = outer_env
         call = " ".join([lname, "W", "fuel"] + ([fixed_call] if fixed_call else []) + ["(loopFuel fuel)"] + cur_args())
@@ -799,11 +912,12 @@ class EFn(C.Fn):
                 self.env[p["id"]] = Val(nm, PTR)
                 self.params_lean.append((nm, "Int"))
             elif kind == "obj":
-                if t != OBJ:
-                    fail("parameter `%s` is not a DeadlineLimited" % cname)
-                f = {"now": self.fresh(cname + "_now"), "deadline": self.fresh(cname + "_deadline")}
-                self.env[p["id"]] = ObjVal(f)
-                self.params_lean += [(f["now"], "Int"), (f["deadline"], "Int")]
+                cls = obj_class(p.get("type"))
+                if t != OBJ or cls is None or (self.spec_e.objcls and cls != self.spec_e.objcls):
+                    fail("parameter `%s` is not a %s" % (cname, self.spec_e.objcls or "deadline object"))
+                f = {fl: self.fresh(cname + "_" + fl) for fl in OBJ_CLASSES[cls][0]}
+                self.env[p["id"]] = ObjVal(f, cls)
+                self.params_lean += [(f[fl], "Int") for fl in OBJ_CLASSES[cls][0]]
             else:
                 if t != kind:
                     fail("parameter `%s` has type %r, expected %r" % (cname, t, kind))
@@ -869,6 +983,19 @@ def clocked_members(repo, docs, which):
 
 def find_eff_function(docs, spec):
     found = {}
+    if spec.targ:
+        for d in docs:
+            for x in walk(d):
+                if x.get("kind") == "FunctionTemplateDecl" and x.get("name") == spec.cname:
+                    for c in kids(x):
+                        if c["kind"] in ("CXXMethodDecl", "FunctionDecl") and C.body_of(c) is not None:
+                            targs = [((y.get("type") or {}).get("qualType") or "").split("::")[-1] for y in kids(c)
+                                     if y["kind"] == "TemplateArgument"]
+                            if targs == [spec.targ]:
+                                found[c.get("id")] = c
+        if len(found) != 1:
+            fail("expected exactly one instantiation %s<%s>, found %d" % (spec.cname, spec.targ, len(found)))
+        return list(found.values())[0]
     for d in docs:
         for x in walk(d):
             if x.get("kind") in ("FunctionDecl", "CXXMethodDecl") and x.get("name") == spec.cname and C.body_of(x) is not None:
@@ -915,8 +1042,8 @@ def translate(repo, available, ast_of):
             body = t.run(fn)
             sig = "".join(" (%s : %s)" % p for p in t.params_lean)
             text = "".join(l + "\n" for l in t.loops)
-            text += "/-- src/%s: `%s` -/\ndef %s {ω : Type} (W : World ω) (fuel : Nat)%s : M ω %s :=\n%s\n" % (
-                spec.src, spec.cname, spec.name, sig, lean_ty(spec.ret), body)
+            text += "/-- src/%s: `%s%s` -/\ndef %s {ω : Type} (W : %s ω) (fuel : Nat)%s : M ω %s :=\n%s\n" % (
+                spec.src, spec.cname, ("<%s>" % spec.targ) if spec.targ else "", spec.name, spec.world, sig, lean_ty(spec.ret), body)
             out.append((spec.name, True, text))
             avail.add(spec.name)
         except Untranslatable as e:
